@@ -619,8 +619,10 @@ def _arg_to_json_like(arg, cast_types=False):
     def item(val):
         if isinstance(val, valida.datapath.DataPath):
             return val.to_spec()
-        if cast_types and isinstance(val, type):
-            return INV_DTYPE_LOOKUP.get(val, val)
+        if isinstance(val, type):
+            if cast_types and val in INV_DTYPE_LOOKUP:
+                return INV_DTYPE_LOOKUP[val]
+            raise TypeError(f"Type {val!r} cannot be written in JSON form.")
         if isinstance(val, dict):
             return escape(val)
         return copy.deepcopy(val)
